@@ -113,6 +113,7 @@ var Benign = [][]string{
 // so the error may cost this statement, but neither the block nor anything behind it.
 var BenignOpen = [][]string{
 	{"echo", "$x", "$y"}, {"$x", "=", "1", "$y"}, {"foo", "(", "$x", ")", "$y"}, {"return", "$x", "$y"}, {"$x", "->", "y", "$z"}, {"print", "1", "2"},
+	{"$x", "->"}, {"$x", "->", "y", "->"}, {"$x", "::"}, {"$x", "="}, {"new"}, {"$x", "["}, {"foo", "("},
 }
 
 // StmtListKinds: kinds whose Stmts list is a statement list with an error production.
